@@ -40,17 +40,46 @@ def store_stats(pid):
         tol = old.z('self.config.tol')
         return forall(N, lambda k: z3.And(ms[0].vals[k] == z3.If(mu.vals[k] > tol, 1.0, 0.0),
                                           ms[2].vals[k] == z3.If(mu.vals[k] < -tol, 1.0, 0.0)))
+    def magnitude(ex, st, args, kw, node):
+        # |mu| of the complex eigenvalue array: a non-negative array with |mu|^2 = re^2 + im^2
+        from pyvc.symval import Obj, ArrC
+        from pyvc.externals import NUMPY
+        if isinstance(args[0], Obj) and args[0].path == 'self.mu':
+            re, im = st.content(st.load('self.mu_real')), st.content(st.load('self.mu_imag'))
+            mag = fresh('abs_mu', z3.ArraySort(I, R))
+            k = fresh('k', I)
+            st.assume(z3.ForAll([k], z3.Implies(z3.And(k >= 0, k < N), z3.And(
+                mag[k] >= 0, mag[k] * mag[k] == re.vals[k] * re.vals[k] + im.vals[k] * im.vals[k]))))
+            return st.new_ref(ArrC(mag, N, None), 'abs(mu)')
+        return NUMPY['np.abs'](ex, st, args, kw, node)
     c = Contract(FE, 'EIG._store_stats', pid=pid, params={'self': TObj()},
-                 schema={'self.mu_real': TArr(n=N), 'self.config.tol': TReal(), 'self.mu': TObj(), 'self.n_positive': TInt(),
+                 schema={'self.mu_real': TArr(n=N), 'self.mu_imag': TArr(n=N), 'self.config.tol': TReal(), 'self.mu': TObj(), 'self.n_positive': TInt(),
                          'self.n_zeros': TInt(), 'self.n_negative': TInt()},
                  requires=[('tol>=0', lambda v: z3.And(v.z('self.config.tol') >= 0, N >= 0))],
                  ghost_init={'masks': []},
-                 calls={'np.count_nonzero': count},
+                 calls={'np.count_nonzero': count, 'np.abs': magnitude, 'abs': magnitude, 'np.absolute': magnitude},
                  ensures=[('positive/zero/negative-masks-partition-the-eigenvalues', post),
                           ('positive<=>re>tol;negative<=>re<-tol', post_meaning)],
                  modifies=['self.n_positive', 'self.n_zeros', 'self.n_negative'])
-    c.properties = {'self.mu.real': lambda ex, st: st.load('self.mu_real')}
+    c.properties = {'self.mu.real': lambda ex, st: st.load('self.mu_real'), 'self.mu.imag': lambda ex, st: st.load('self.mu_imag')}
     return c
+
+
+def replay_store_stats(obligation, model, meta):
+    """native run of the real EIG._store_stats on a stub: the three counts partition the spectrum by the sign of the real part"""
+    from types import SimpleNamespace
+    import numpy as np
+    from andes.routines.eig import EIG
+    tol = 1e-6
+    for mu in (np.array([-1 + 2j, 0.5 + 0j, 0j]), np.array([1j, -1j, 5e-7 + 3j, -2.0]), np.array([tol, -tol, 2 * tol, -2 * tol + 1j])):
+        stub = SimpleNamespace(mu=mu, config=SimpleNamespace(tol=tol))
+        EIG._store_stats(stub)
+        want = (int(np.sum(mu.real > tol)), int(np.sum(np.abs(mu.real) <= tol)), int(np.sum(mu.real < -tol)))
+        got = (int(stub.n_positive), int(stub.n_zeros), int(stub.n_negative))
+        if got != want:
+            return {'confirmed': True, 'inputs': {'mu': [str(x) for x in mu], 'tol': tol},
+                    'observed': '(n_positive, n_zeros, n_negative) = %r, expected %r' % (got, want), 'native_cmd': 'EIG._store_stats(stub)'}
+    return {'confirmed': False, 'tried': 3}
 
 
 LINSOLVE = z3.Function('gy_inverse_times', M.Mat, M.Mat, M.Mat)      # kvxopt linsolve(A, B): B := A^-1 B (assumed; C16)
@@ -87,7 +116,7 @@ def reduce_(pid):
         return res.term == want
     c = Contract(FE, 'EIG._reduce', pid=pid,
                  params={'self': TObj(), 'fx': M.MatT, 'fy': M.MatT, 'gx': M.MatT, 'gy': M.MatT, 'Tf': TArr(n=N), 'dense': TConst(True)},
-                 schema={'self.gyx': M.MatT, 'self.fxy': M.MatT},
+                 schema={'self.gyx': M.MatT, 'self.fxy': M.MatT, 'self.config.tol': TReal()},
                  requires=[('N>=0', lambda v: N >= 0)],
                  calls={'matrix': matrix_h, 'self.solver.linsolve': linsolve, 'spdiag': spdiag, '__binop__': M.binop,
                         'sparse': lambda ex, st, a, k, n: a[0]},
